@@ -48,6 +48,7 @@ def configs(tier, seed):
         _cfg((129, 2, 2), "uint8", ["--downscaling-method", "majority", "--type", "segmentation", "--no-gzip"]),
         _cfg((131, 2, 1), "uint8", ["--downscaling-method", "stride"]),
         _cfg((130, 2, 2), "uint8", ["--downscaling-method", "average", "--outside-value", "5"]),
+        _cfg((129, 3, 1), "uint8", ["--outside-value", "0", "--no-gzip"]),       # falsy option values (0) must survive the plumbing
         _cfg((66, 2, 1), "uint8", ["--encoding", "compressed_segmentation", "--type", "segmentation"], two_labels=True, cost=8),
         _cfg((64, 3, 2), "uint16", []),                                                # single scale
         _cfg((130, 2, 3), "uint8", ["--downscaling-method", "stride"], vs=[1.0, 1.0, 4.0]),   # anisotropic: chunk sizes change between scales
